@@ -537,3 +537,83 @@ Proof.
   assert (Hs : ssorted s). { apply Hks. unfold cmem in Hmem. destruct (lookup (spec_run ops) s); [congruence | discriminate]. }
   symmetry. apply linked_equals_unlinked; auto.
 Qed.
+
+(* ------------------------------------------------------------------------------------------------ boundary *)
+Lemma drop_each_spec : forall s f o, In (f, o) (drop_each s) <-> exists a b, s = a ++ o :: b /\ f = a ++ b.
+Proof.
+  induction s as [|x r IH]; intros f o; cbn [drop_each].
+  - split; [intros [] | intros (a & b & H & _); destruct a; discriminate].
+  - rewrite in_app_iff, in_map_iff. cbn [In]. split.
+    + intros [([f' o'] & Heq & Hin)|[H|[]]].
+      * cbn [fst snd] in Heq. inversion Heq; subst. apply IH in Hin as (a & b & -> & ->).
+        exists (x :: a), b. split; reflexivity.
+      * inversion H; subst. exists [], f. split; reflexivity.
+    + intros (a & b & Hs & Hf). destruct a as [|y a'].
+      * cbn [app] in *. inversion Hs; subst. right. left. reflexivity.
+      * cbn [app] in *. inversion Hs; subst. left. exists (a' ++ b, o). split; auto.
+        apply IH. exists a', b. split; reflexivity.
+Qed.
+Lemma drop_each_length s : length (drop_each s) = length s.
+Proof. induction s as [|x r IH]; cbn [drop_each]; auto. rewrite app_length, map_length. cbn [length]. rewrite Nat.add_1_r. f_equal. exact IH. Qed.
+
+(* boundary_simplex_range / boundary_opposite_vertex_simplex_range of a stored simplex s of a closed complex:
+   exactly the |s| facets (none for a vertex), each stored, each paired with the vertex it lacks *)
+Theorem boundary_correct l s :
+  (forall t, In t (faces s) -> find_val t l <> None) ->
+  length (boundary_t l s) = (if (length s =? 1)%nat then 0 else length s)%nat /\
+  forall f o v, In (f, o, v) (boundary_t l s) <->
+                ((2 <= length s)%nat /\ v = find_val f l /\ v <> None /\ exists a b, s = a ++ o :: b /\ f = a ++ b).
+Proof.
+  intro Hcl. unfold boundary_t, boundary. split.
+  - rewrite map_length. destruct s as [|x [|y r]]; auto. rewrite drop_each_length. reflexivity.
+  - intros f o v. rewrite in_map_iff. split.
+    + intros ([f' o'] & Heq & Hin). cbn [fst snd] in Heq. inversion Heq; subst.
+      assert (Hlen : (2 <= length s)%nat).
+      { destruct s as [|x [|y r]]; [destruct Hin | destruct Hin | cbn [length]; lia]. }
+      assert (Hd : In (f, o) (drop_each s)) by (destruct s as [|x [|y r]]; auto; destruct Hin).
+      apply drop_each_spec in Hd as (a & b & Hs & Hf).
+      split; auto. split; auto. split; [|eauto].
+      apply Hcl. apply in_faces. split.
+      * intro; subst. destruct a; destruct b; try discriminate. cbn [app length] in Hlen. lia.
+      * rewrite Hs, Hf. apply subseq_app; [apply subseq_refl | apply subseq_cons_r, subseq_refl].
+    + intros (Hlen & -> & _ & a & b & Hs & Hf). exists (f, o). split; auto.
+      assert (Hd : In (f, o) (drop_each s)) by (apply drop_each_spec; eauto).
+      destruct s as [|x [|y r]]; auto. cbn [length] in Hlen. lia.
+Qed.
+
+(* ------------------------------------------------------------------------------------------------ skeleton *)
+Lemma skel_cons x w c r k :
+  skel_t (Node ((x, w, c) :: r)) k =
+  ((match k with O => [] | S k' => map (fun p => (x :: fst p, snd p)) (skel_t c k') end) ++ [([x], w)]) ++ skel_t (Node r) k.
+Proof. reflexivity. Qed.
+Theorem skeleton_correct : forall l, wf l -> forall k t v,
+  In (t, v) (skel_t (Node l) k) <-> (t <> [] /\ (length t <= S k)%nat /\ find_val t l = Some v).
+Proof.
+  apply (sibs_trie_ind (fun c => wf_t c -> forall k t v, In (t, v) (skel_t c k) <-> (t <> [] /\ (length t <= S k)%nat /\ find_val t (kids c) = Some v))
+                       (fun l => wf l -> forall k t v, In (t, v) (skel_t (Node l) k) <-> (t <> [] /\ (length t <= S k)%nat /\ find_val t l = Some v))).
+  - intros l H Hw k t v. cbn [kids]. apply H. rewrite <- wf_t_node. exact Hw.
+  - intros _ k t v. cbn. rewrite find_val_nil_l. split; [tauto | intros (_ & _ & H); discriminate].
+  - intros x w c r IHc IHr Hwf k t v. apply wf_cons in Hwf as (Hlb & Hc & Hr).
+    rewrite skel_cons, !in_app_iff. cbn [In]. rewrite (IHr Hr k). split.
+    + intros [[H|[H|[]]]|H].
+      * destruct k as [|k']; [destruct H|]. apply in_map_iff in H as ([t' v'] & Heq & Hin). cbn [fst snd] in Heq.
+        inversion Heq; subst. apply (IHc Hc k') in Hin as (Hne & Hlen & Hf).
+        split; [congruence|]. split; [cbn [length]; lia|].
+        destruct c as [c0]. destruct t' as [|y t'']; [congruence|]. rewrite find_val_cons_eq_deep. exact Hf.
+      * inversion H; subst. split; [congruence|]. split; [cbn; lia | apply find_val_cons_eq_one].
+      * destruct H as (Hne & Hlen & Hf). split; auto. split; auto.
+        destruct t as [|z t']; [congruence|].
+        assert (x < z).
+        { apply lb_sibs_get_some with (r := r); auto. apply find_val_head_get with (t := t'). congruence. }
+        rewrite find_val_cons_gt by auto. exact Hf.
+    + intros (Hne & Hlen & Hf). destruct t as [|z t']; [congruence|].
+      destruct (Z.compare_spec z x) as [E|E|E].
+      * subst z. left. destruct t' as [|y t''].
+        -- right. left. rewrite find_val_cons_eq_one in Hf. inversion Hf; subst. reflexivity.
+        -- left. destruct c as [c0]. rewrite find_val_cons_eq_deep in Hf.
+           destruct k as [|k']; [cbn [length] in Hlen; lia|].
+           apply in_map_iff. exists (y :: t'', v). split; auto. apply (IHc Hc k'). cbn [kids].
+           split; [congruence|]. split; [cbn [length] in *; lia | exact Hf].
+      * rewrite find_val_cons_lt in Hf by auto. discriminate.
+      * rewrite find_val_cons_gt in Hf by auto. right. auto.
+Qed.
